@@ -66,6 +66,14 @@ fn numeric_templates() -> Vec<(&'static str, bool)> {
         ("pub enum E: u128 {\n    A = {N},\n    B,\n}\npub enum F: i128 {\n    A = {N},\n    B,\n}\n", false),
         ("pub enum E: i8 {\n    A = {N},\n    B,\n}\npub enum F: u16 {\n    A = {N},\n    B,\n}\npub enum G: i16 {\n    A = {N},\n}\npub enum H: u32 {\n    A = {N},\n}\npub enum I: i32 {\n    A = {N},\n}\npub enum J: u64 {\n    A = {N},\n    B,\n}\n", false),
         ("pub type Inner {\n    pub a: [u8; {N}],\n}\npub type Outer {\n    pub i: [Inner; {M}],\n    pub j: Inner,\n}\n", false),
+        // array sizes outside field position: enum bases, extern values, signatures, behind pointers
+        ("pub enum E: [u64; {N}] {\n    A,\n}\n", false),
+        ("pub enum E: [[u16; {N}]; {M}] {\n    A,\n}\n", false),
+        ("#[address(0x10)]\npub extern g: [u64; {N}];\n#[address(0x20)]\npub extern h: [[u8; {N}]; {M}];\n", false),
+        ("pub type T {\n    pub a: u32,\n}\nimpl T {\n    #[address(16)]\n    pub fn f(&self, a: [u64; {N}]) -> [[u32; {N}]; {M}];\n}\n", false),
+        ("pub type T {\n    vftable {\n        pub fn v(&self, a: [u64; {N}]) -> *const [u16; {M}];\n    },\n}\n", false),
+        ("pub type T {\n    pub p: *const [u64; {N}],\n    pub q: *mut [[u8; {N}]; {M}],\n}\n", false),
+        ("#[singleton(0x10), size({N})]\npub type T;\n#[copyable, defaultable]\npub type U {\n    pub a: [[u8; {N}]; 2],\n    pub b: [u64; {M}],\n}\n", false),
     ]
 }
 
